@@ -1,6 +1,7 @@
 package project
 
 import (
+	"sync/atomic"
 	"encoding/hex"
 	"fmt"
 	"sort"
@@ -326,8 +327,19 @@ type Diff struct {
 }
 
 // Compare returns the facts on which model and implementation disagree ("" = absent).
+// Unmodelled counts the facts of the file that have no counterpart in the specification's vocabulary (keys the projection marks with
+// "?": an unknown field, bucket or index).  They are not differences -- the specification says nothing about them -- but they are counted
+// (report of the replayer) and stay subject to the raw checks: the byte-for-byte comparison after a roll-back and the residue scan.
+var Unmodelled int64
+
 func Compare(model, real Facts) []Diff {
 	var out []Diff
+	for k := range real {
+		if strings.Contains(k, "?") {
+			atomic.AddInt64(&Unmodelled, 1)
+			delete(real, k)
+		}
+	}
 	for k, mv := range model {
 		if rv, ok := real[k]; !ok || rv != mv {
 			out = append(out, Diff{Key: k, Model: mv, Real: real[k], Owner: Owner(k)})
